@@ -172,7 +172,10 @@ def explore(ctx, nprog, reps):
         for n in reps:
             rd = c16.Render()
             lines = ["f%d() %s" % (i, rd.r(f)) for i, f in enumerate(funs)]
-            body = "; ".join(rd.r(c) for c in cmds)
+            urng = random.Random(ctx.seed * 53 + len(cases) // len(reps))
+            units = [urng.choice(RAW_FD_UNITS) for _ in range(3)]
+            body = "; ".join([rd.r(c) for c in cmds] + units)
+            lines.append("fok() { :; }")
             lines.append("body() { %s; }" % body)
             lines.append(MEASURE)
             # the counter must not be `i`: the generated `for i in …` loops assign it (with `i` the loop
@@ -316,7 +319,24 @@ RAW_UNITS = [
     "read x </nonexistent/x", "exec 7</dev/null; exec 7<&-", "true 7</nonexistent/x", "( exit 3 )", "echo $(false)",
     "true | false", "{ false; } 2>/nonexistent/x",
 ]
+# every way a descriptor-producing construct can fail (single-line ones are also used by the process-level runs)
+RAW_FD_UNITS = [
+    "coproc bad-name { :; }", "coproc 1x { :; }",
+    "true >/nonexistent/x", "true >>/nonexistent/x", "true 2>/nonexistent/x", "true &>/nonexistent/x", "true <>/nonexistent/d/x",
+    "true >|/nonexistent/x", "true 3</nonexistent/x", "true <&9", "true >&9", "true 9>&-", "{ true; } >/nonexistent/x",
+    "( true ) </nonexistent/x", "fok >/nonexistent/x", "for i in 1; do :; done </nonexistent/x", "if true; then :; fi >/nonexistent/x",
+    "while false; do :; done 2>/nonexistent/x", "true >/dev/null 2>/nonexistent/x 3>/dev/null", "exec 8>/nonexistent/x",
+    "true <<< $((1/0))", "true <(false)", "true < <(exit 3)", "no_such_cmd_zz <(true)", "true <(true) >/nonexistent/x",
+    "true >(false)",
+]
+RAW_FD_MULTILINE = [
+    "cat <<EOF >/nonexistent/x\nh\nEOF", "cat <<EOF >/dev/null\n$((1/0))\nEOF", "no_such_cmd_zz <<EOF\nx\nEOF",
+    "true <<EOF 3</nonexistent/x\nh\nEOF",
+]
+KF_COPROC = "KF-C18-coproc-fds"
+
 RAW_PROLOGUE = [
+    "fok() { :; }",
     "fcomp() { COMPREPLY=(ca cb); }", "ffail() { false; }", "fdiv() { : $((1/0)); }", "fnest() { compgen -F nofn -- q; false; }",
     "fargs() { shift; set -- p q; local v=1; return 2; }", "fsrc() { . $D/args.sh inner; . $D/empty.sh; return 4; }",
     "fret() { for i in 1 2; do while true; do return 7; done; done; }", "floopret() { for i in 1 2; do eval 'return 3'; done; }",
@@ -348,8 +368,13 @@ def iterfp(ctx, n):
             pro, files = [], {}
         for _ in range(rng.randrange(2, 7)):
             body.insert(rng.randrange(0, len(body) + 1), rng.choice(RAW_UNITS))
-        if k < len(RAW_UNITS):
-            body.append(RAW_UNITS[k])        # every unit at least once on every run
+        allu = RAW_UNITS + RAW_FD_UNITS + RAW_FD_MULTILINE
+        for _ in range(rng.randrange(1, 4)):
+            body.insert(rng.randrange(0, len(body) + 1), rng.choice(RAW_FD_UNITS + RAW_FD_MULTILINE))
+        if k < len(allu):
+            body.append(allu[k])        # every unit at least once on every run
+        if k == n - 1:
+            body, pro, files = ["coproc CPX { :; }"], [], {}   # the successful coproc: known finding
         pro = RAW_PROLOGUE + pro
         files.update(RAW_FILES)
         c = [str(len(pro))] + pro + [str(len(body))] + body
@@ -375,6 +400,8 @@ def iterfp(ctx, n):
             v = {"input": m, "why": "fields of the shell's state after 1/2/50 iterations of the body differ: %s" % ", ".join(leaks[:6])}
             if all(l.split("=")[0] == ".env.entry_count" for l in leaks):
                 v["known"] = KF_ENTRY_COUNT
+            elif m["body"] == ["coproc CPX { :; }"] and all(l.startswith((".open_files", ".env.entry_count")) for l in leaks):
+                v["known"] = KF_COPROC
             bad.append(v)
     return len(cases), bad, {"sessions": len(cases), "raw_units": len(RAW_UNITS), "counters_allowed_to_grow_seen": allowed_seen}
 
